@@ -1568,7 +1568,12 @@ where
                             pending_writes.push(do_write(tx, false));
                             true
                         }
-                        _ => false,
+                        _ => {
+                            // Nothing was written so the writer must be returned or the
+                            // output channel of the item would be closed.
+                            item_writers.insert(*id, tx);
+                            false
+                        }
                     }
                 } else {
                     true
